@@ -64,6 +64,7 @@ type partition struct {
 	pending   map[int64][]*run // 贪婪：已完成 run 按 startSeq 暂存，等延伸终止选最长 emit
 	matchNo   int              // 本分区已输出匹配数（MATCH_NUMBER）
 	nextStart int64            // 下一个允许起匹配的 seq（SKIP 策略）
+	seq       int64            // per-partition row counter (see Process)
 }
 
 // frame 是匹配历史的不可变节点（cons-list）：advance 仅 O(1) 追加，前缀天然共享，
@@ -341,9 +342,14 @@ func (e *Engine) Process(row map[string]any, partitionKey string) []map[string]a
 	e.mu.Lock()
 	defer e.mu.Unlock()
 	e.seq++
-	mrSeq := e.seq
 
+	// Row numbers are per partition: skipTo / pruneSurvivors / seqOfLabel compute with
+	// startSeq + nrows, which is only right when a partition's rows are numbered
+	// consecutively. With the engine-wide counter, rows of other partitions interleaved
+	// in between shifted the SKIP arithmetic (overlapping and missing matches).
 	p := e.getPartition(partitionKey)
+	p.seq++
+	mrSeq := p.seq
 	emitted := e.step(p, row, ts, mrSeq)
 	e.evictIfNeeded()
 	return emitted
